@@ -161,11 +161,11 @@ func canonical(host string, cname map[string]string) string {
 	}
 	h = strings.TrimSuffix(h, ".")
 	if c, ok := cname[h]; ok && !strings.HasPrefix(c, "!") {
-		h = strings.ToLower(strings.TrimSuffix(c, "."))
-	} else if !ok {
-		h = strings.ToLower(h)
+		h = strings.TrimSuffix(c, ".")
 	}
-	return h
+	// the host part of a host-based principal name is lower case (RFC 4120 6.2.1), URL hosts are
+	// case-insensitive: whether the look-up succeeded or not
+	return strings.ToLower(h)
 }
 
 // preAuthValue: the Authorization header a caller hands to Do.
@@ -239,7 +239,7 @@ func run(tapeJSON json.RawMessage, res *core.Result) {
 	gk.Seed(tp.RunSeed)
 	// ---- world
 	net := world.NewNet()
-	net.CNAME = map[string]string{"host.sim.test": "host.sim.test.", "alias.sim.test": "Host.sim.test.", "nodns.sim.test": "!", "other.sim.test": "other.sim.test.",
+	net.CNAME = map[string]string{"host.sim.test": "host.sim.test.", "alias.sim.test": "Host.sim.test.", "nodns.sim.test": "!", "NoDNS.sim.test": "!", "other.sim.test": "other.sim.test.",
 		"upper.sim.test": "upper.sim.test.", "UPPER.sim.test": "upper.sim.test."}
 	pol := refkdc.Policy{}
 	if tp.GapS > 0 {
@@ -548,7 +548,7 @@ func run(tapeJSON json.RawMessage, res *core.Result) {
 		switch {
 		case strings.HasPrefix(tp.Host, "alias."):
 			res.Probes["spn-derived-via-cname"]++
-		case strings.HasPrefix(tp.Host, "nodns."):
+		case strings.HasPrefix(strings.ToLower(tp.Host), "nodns."):
 			res.Probes["spn-derived-lookup-failed"]++
 		}
 	}
